@@ -139,7 +139,8 @@ def parse_overlay(text, fname='<overlay>'):
                 elif k2 == 'strslice':
                     u['strslice'] += r2.split()
                 elif k2 == 'requires':
-                    u['requires'].append(_dedent(b2))
+                    m = re.match(r'\[([^\]]+)\]\s*$', r2)
+                    u['requires'].append((m.group(1) if m else None, _dedent(b2)))
                 elif k2 == 'ensures':
                     m = re.match(r'\[([^\]]+)\]\s*$', r2)
                     if not m:
@@ -188,8 +189,12 @@ def sig_contract_text(u):
     out = []
     if u['requires']:
         out.append('    requires')
-        for c in u['requires']:
+        for label, c in u['requires']:
+            if label:
+                out.append(f'        // @PRE {label}')
             out.append('        (' + c.replace('\n', '\n        ') + '),')
+            if label:
+                out.append('        // @ENDOBL')
     if u['ensures']:
         out.append('    ensures')
         for label, c in u['ensures']:
